@@ -197,9 +197,15 @@ def gen_program(rnd):
                 name = rnd.choice(all_exports)
                 owner = next(i for i, lst in enumerate(per_file) if name in lst)
                 other = rnd.choice([x for x in range(len(files)) if x != owner])
-                # a private definition of the exported spelling, defined AFTER its use: the own definition must win
-                files[other].stmts.insert(0, apm.data(".word", ("sym", name)))
-                files[other].stmts.append(apm.assign(name, apm.num(uniq.next())))
+                # a private definition of the exported spelling, defined AFTER its use: the own definition must win, whatever
+                # has been compiled in that file before the use (a finished '.repeat' block, an include) and however it is used
+                use = rnd.choice([apm.data(".word", ("sym", name)), apm.insn("mov", ("imm", ("sym", name)), ("reg", 0)),
+                                  apm.assign("viaown", ("bin", "+", ("sym", name), apm.num(1)))])
+                head = [use] + ([apm.data(".word", ("sym", "viaown"))] if use.k == "assign" else [])
+                if rnd.random() < 0.5:
+                    head = [apm.repeat(apm.num(rnd.choice([1, 2])), [apm.insn("nop")])] + head
+                files[other].stmts[0:0] = head
+                files[other].stmts.append(apm.assign(name, apm.num(uniq.next() & 0o77777)))
             else:
                 plant = None
     base = rnd.choice([0o1000, 0o2000, 0])
@@ -244,9 +250,57 @@ def run_shard(spec):
                 res["distinct"].append(repr(case["prog"]["files"])[:4000])
             if i < 1:
                 res["samples"].append({"plant": plant, "files": {f.name: apm.r_file(f).splitlines()[:16] for f in prog.files}})
+        for i in range(max(2, spec["count"] // 12)):
+            prog, plant = gen_many_scopes(rnd)
+            case = {"prog": apm.to_json(prog), "plant": plant}
+            res["violations"].extend(run_case(case, cnt, root))
+            res["evaluations"] += 1
+            cnt["programs"] += 1
+            res["sets"]["plants"].append(plant)
+            res["distinct"].append(repr(case["prog"]["files"])[:4000])
     finally:
         shutil.rmtree(root, ignore_errors=True)
     return res
+
+
+def gen_many_scopes(rnd):
+    """Dozens of local scopes in 1-2 units, local names of one to three digits whose digits line up with scope numbers ('13$' in an
+    early scope, '3$' in the eleventh ...): every scope is its own name space however the names are spelled."""
+    from vlib import apm
+    nfiles = rnd.choice([1, 2])
+    files = []
+    word = [0]
+
+    def w():
+        word[0] += 1
+        return apm.num((word[0] * 2654435761) & 0o177777)
+    tails = rnd.sample(["0$", "1$", "2$", "3$", "7$", "3", "5"], 3)
+    for fi in range(nfiles):
+        stmts = []
+        for sc in range(rnd.randrange(12, 45)):
+            stmts.append(apm.label(f"s{fi}x{sc}"))
+            stmts.append(apm.data(".word", w()))
+            names = []
+            if sc < 6 and rnd.random() < 0.8:
+                names += [str(d) + t for d in rnd.sample(range(1, 5), 2) for t in tails[:2]]      # '13$', '23', ...
+            if rnd.random() < 0.7:
+                names += rnd.sample(tails, rnd.randrange(1, 3))
+            names = [n for i, n in enumerate(names) if n not in names[:i]]
+            for n in names:
+                if rnd.random() < 0.5:
+                    stmts += [apm.label(n), apm.data(".word", ("loc", n), w())]
+                else:
+                    stmts += [apm.data(".word", ("loc", n), w()), apm.label(n), apm.data(".word", w())]
+        files.append(apm.SrcFile(f"f{fi}.mac", stmts))
+    plant = "many-scopes"
+    if rnd.random() < 0.4:
+        # a reference to a name that only OTHER scopes define: must be reported, not bound to one of them
+        f = rnd.choice(files)
+        t = rnd.choice(tails)
+        f.stmts += [apm.label("lonely" + f.name[1]), apm.data(".word", ("loc", t)), apm.label("lonelyend" + f.name[1]), apm.label(t), apm.data(".word", w())]
+        plant = "many-scopes-undefined"
+    files[0].stmts.insert(0, apm.link(apm.num(rnd.choice([0o1000, 0o2000, 0]))))
+    return apm.Program(files), plant
 
 
 def run_case(case, cnt=None, root=None):
